@@ -708,7 +708,7 @@ def run(tier, seed):
         tlc_scripts += got
         r.pop("out")
         mcs.append((cfg, r))
-    cap = 12000 if thorough else 1800
+    cap = 12000 if thorough else 1600
     if len(tlc_scripts) > cap:
         tlc_scripts = rng.sample(tlc_scripts, cap)
 
@@ -728,7 +728,7 @@ def run(tier, seed):
 
     # ---- 2. larger histories: threshold sweeps + seeded random trees, several schedules each
     n_sweep = n_rand = 0
-    per_hist = 6 if thorough else 3
+    per_hist = 6 if thorough else 2
     for n in names:
         for tree, targets in sweep_histories(metas[n], ard):
             reloads = [False] + [rng.random() < 0.15 for _ in targets[1:]]
